@@ -11,7 +11,7 @@ PROPERTY = 'C13'
 LEVEL = 'fault_enumeration'
 RULE = (
     'pipe throughput in {1/2, 1, 3, 8, inf (UnboundedPipe and Pipe(inf))}, 1-8 participants each doing 1-3 transfers with '
-    'volumes {0, 1/8 .. 64} and limits {None, 1/4 .. 16, > throughput}, overlapping start '
+    'volumes {0, 1/8 .. 64} and limits {None, 1/4 .. 16, > throughput, inf}, overlapping start '
     'times, joins and leaves mid-flight; un-injected run plus cancel / until-interrupt / close '
     'of a participant injected at activation boundaries (quick: sampled; thorough: every '
     'boundary x participant x kind). Oracle: every completion time logged by the real code is '
@@ -33,7 +33,7 @@ REQUIRED_STATS = ['completions_checked', 'overlapping_runs', 'signals_landed', '
                   'struck:interrupt', 'struck:close']
 
 VOLUMES = [0, 0.125, 0.5, 1, 1, 2, 3, 5, 8, 16, 64]
-LIMITS = [None, None, None, 0.25, 0.5, 1, 2, 4, 16]
+LIMITS = [None, None, None, 0.25, 0.5, 1, 2, 4, 16, 'inf']
 OFFSETS = [0, 0, 0, 0.5, 1, 1, 2, 3]
 
 
@@ -89,7 +89,8 @@ class PipeChecker:
         scenario = self.scenario
         throughput = float('inf') if scenario['throughput'] in ('inf', 'pipe-inf') \
             else scenario['throughput']
-        participants = {user['name']: [tuple(r) for r in user['rounds']]
+        participants = {user['name']: [(r[0], r[1], float('inf') if r[2] == 'inf' else r[2])
+                                       for r in user['rounds']]
                         for user in scenario['users']}
         removals = {}
         for n, kind, name, when in self.arena.struck:
@@ -146,7 +147,7 @@ def build_for(case):
                     checker.inflight += 1
                     checker.max_inflight = max(checker.max_inflight, checker.inflight)
                     try:
-                        await pipe.transfer(volume, limit)
+                        await pipe.transfer(volume, float('inf') if limit == 'inf' else limit)
                     except BaseException:
                         checker.stats['transfers_struck'] += 1
                         raise
